@@ -47,5 +47,41 @@ CHECKS = {
         "note": "no pre-emption in the families (statement's quantifier); capacity = fixed servers + queue capacity",
         "technique": "stateless exhaustive enumeration of environment answers of the real implementation, FIFO shadow reference model + moment-of-decision checks",
     },
+    "C08": {
+        "text": "Complete answer trees over 1-3 classes on 1-3 priority levels, FIFO/LIFO/SIRO, 1-2 servers, non-pre-emptive and pre-emptive priorities, starts triggered by unblocking / shift change / class change, slotted nodes: at every call of the discipline the candidate list is compared with the true waiting customers of the best priority class, and at every service start (attach seam) the starter with the discipline's pick and the priority/FIFO rule.",
+        "ref": "DESIGN.md §7 C08",
+        "note": "pre-emptive schedules excluded (C12 rule); customers whose priority changed while waiting only under the cross-priority clause",
+        "technique": "stateless exhaustive enumeration of environment answers of the real implementation, moment-of-choice oracle at the discipline and attach seams",
+    },
+    "C09": {
+        "text": "Complete (or deviation-bounded) answer trees for every routing object (TransitionMatrix with zero cells, Direct/Leave/Cycle/Probabilistic/JSQ/LB node routers, ProcessBased, FlexibleProcessBased any/all x random/jsq/lb), class-change matrices with zero cells, JSQ/LB towards PS/infinite/slotted/multi-server nodes and after pre-emptive re-routing; every decision is checked at the router seam against the specification and the true populations; explicit end-point answers 0.0 and 1-2^-53 of random() in a dedicated family.",
+        "ref": "DESIGN.md §7 C09",
+        "note": "waiting line = present minus in service (server side) at the decision instant",
+        "technique": "stateless exhaustive enumeration of environment answers of the real implementation, routing-decision oracle at the router seam",
+    },
+    "C10": {
+        "text": "Complete answer trees with logging menu distributions (two streams, two classes, batches 0/1/2, time- and state-dependent menus, all ordinary node kinds): arrival instants are the left-fold partial sums of the stream's own samples, batch sizes and service durations equal the logged samples; invalid-answer family: exactly one invalid answer at each sample position of the default execution must raise before the next event.",
+        "ref": "DESIGN.md §7 C10",
+        "note": "service clause at ordinary nodes without pre-emption; 'error' = any exception",
+        "technique": "stateless exhaustive enumeration of environment answers (incl. one injected invalid answer per sample position) of the real implementation, sample-log audit",
+    },
+    "C11": {
+        "text": "Complete answer trees for pre-emptive priorities resume/restart/resample/reroute with 1-3 servers, 2-3 levels, priority raised while waiting: no priority inversion after any event, victim = lowest priority / most recently started (checked at the detach seam), and per completed visit the resume/restart/resample time identities against the logged samples.",
+        "ref": "DESIGN.md §7 C11",
+        "note": "nodes whose customers are never blocked; priority pre-emption only",
+        "technique": "stateless exhaustive enumeration of environment answers of the real implementation, per-event invariant + per-visit sample identities",
+    },
+    "C12": {
+        "text": "Complete answer trees over schedules {[1,0],[2,0,1],[1,2],[0,1]} x offsets x all five pre-emption options over 2.5 cycles and slot tables x offsets x capacitated/pre-emption options: roster and next shift change against a modular-arithmetic timetable after every event, no start on off-duty servers or while zero are scheduled, overtime completion, interruption exactly at the shift end, interrupted customers restarted first in (priority, arrival) order, slot instants, per-slot starts and capacities.",
+        "ref": "DESIGN.md §7 C12",
+        "note": "timetable in exact rationals; capacitated non-pre-emptive slots: new starts <= size - in service before",
+        "technique": "stateless exhaustive enumeration of environment answers of the real implementation against a timetable reference model",
+    },
+    "C13": {
+        "text": "Complete answer trees for reneging (1-2 servers, per-class patience, priorities, pre-emption, zero-server shifts, capacities, jockeying to another node, ties with service ends and arrivals) and baulking (by-n and free menus, batches, two nodes/classes): nobody waits beyond arrival+patience, renege instant/target/no-service-start, nobody in service reneges (seam), baulking function argument = true population, p=0 never / p=1 always, baulk record and accepted counter.",
+        "ref": "DESIGN.md §7 C13",
+        "note": "a customer whose service started once in the visit is no longer subject to its patience",
+        "technique": "stateless exhaustive enumeration of environment answers of the real implementation, sample-log and seam oracles",
+    },
 }
 PENDING = {}
